@@ -7,3 +7,5 @@ package gorums
 func verifPoint(string, *channel) {}
 
 func verifSrvPoint(string) {}
+
+func verifMsg(string, *channel, uint64) {}
